@@ -86,7 +86,7 @@ def runStep (s : RunSt) (line : String) : RunSt × String :=
         | some _ =>
           match (kv ws "groups").bind parseGroups with
           | none => (s, "bad-op")
-          | some gs => (s, "c=" ++ ",".intercalate (gs.map fun g => toString (s.st (q, g)).shown))
+          | some gs => (s, "c=" ++ ",".intercalate (gs.map fun g => toString (s.st.at (q, g)).shown))
     | _, _ => (s, "bad-op")
   | k :: ws =>
     match parseKind k with
